@@ -373,6 +373,7 @@ func cmdMvisStress(c Cmd) (interface{}, error) {
 	segRotate := !c.boolean("no_seg_rotate")
 	segEvery := int(c.i64("seg_every", 6)) // one rotation in seg_every also rotates the segment
 	prerotate := c.boolean("prerotate")     // start with one rotated segment per shard that the query side has loaded
+	flushUs := int(c.i64("flush_us", 1000)) // the "timer" flush fires every flush_us .. 4*flush_us microseconds
 	forceFlushAtEnd := c.boolean("force_flush")
 
 	ser := make([]*mvisSeries, K)
@@ -563,7 +564,7 @@ func cmdMvisStress(c Cmd) (interface{}, error) {
 			}
 			nFlushes.Add(int64(n))
 			lastProgress.Store(time.Now().UnixNano())
-			time.Sleep(time.Duration(1000+r.Intn(3000)) * time.Microsecond)
+			time.Sleep(time.Duration(flushUs+r.Intn(3*flushUs)) * time.Microsecond)
 		}
 	}()
 	// size-driven rotation of one shard: block only, or block + segment
